@@ -522,6 +522,9 @@ class EXXSphGenerator:
                     cutoff=None,
                     out=cao,
                 )
+                # eval_conv_ao drops the component axis when there is a
+                # single exponent and no l=1 components
+                _cao = _cao.reshape(ncpa, coords.shape[0], -1)
                 for v in range(ncpa):
                     tmp[v, ialpha] = _contract_rho(_cao[v], c0)
         else:
@@ -546,6 +549,9 @@ class EXXSphGenerator:
                     cutoff=None,
                     out=cao,
                 )
+                # eval_conv_ao drops the component axis when there is a
+                # single exponent and no l=1 components
+                _cao = _cao.reshape(tmp2.shape[1], coords.shape[0], -1)
                 tmp3 += _scale_ao(_cao, tmp2[ialpha])
             return tmp3
         else:
